@@ -39,7 +39,8 @@ PLAN = {
         unit("cyc", "TestC08", 3000, 40000, replay="TestReplayC08"),
         unit("cyc", "TestC08Hist", 1200, 15000, seed_off=200),
         unit("loop", "TestC08Loop", 150, 3000, seed_off=700, shrinktime="30s"),
-        unit("cfgh", "TestC08Reload", 150, 2000, replay="TestReplayC08Reload", seed_off=900)]},
+        unit("cfgh", "TestC08Reload", 150, 2000, replay="TestReplayC08Reload", seed_off=900),
+        unit("sys", "TestC08Sys", 3, 20, replay="TestReplayC08Sys", seed_off=950, shrinktime="30s", workers={"quick": 8, "thorough": 16})]},
     "C09": {"level": "fault_enumeration", "units": [
         unit("side", "TestC09RoundTrip", 300, 4000, replay="TestReplayC09"),
         unit("side", "TestC09Torn", 12, 150, shrinktime="30s", seed_off=300),
@@ -59,6 +60,7 @@ PLAN = {
         unit("sys", "TestC12Sys", 3, 20, replay="TestReplayC12Sys", seed_off=950, shrinktime="30s", workers={"quick": 8, "thorough": 16})]},
     "C13": {"level": "fault_enumeration", "units": [
         unit("side", "TestC13", 250, 3000, replay="TestReplayC13"),
+        unit("sys", "TestC13Sys", 3, 20, replay="TestReplayC13Sys", seed_off=950, shrinktime="30s", workers={"quick": 8, "thorough": 16}),
         unit("loop", "TestC13Stop", 150, 3000, seed_off=600, shrinktime="30s")]},
     "C14": {"level": "exploration", "units": [
         unit("side", "TestC14", 1000, 15000, replay="TestReplayC14"),
